@@ -8,6 +8,7 @@ import (
 	"net/netip"
 	"os"
 	"reflect"
+	"runtime"
 	"sort"
 	"strings"
 	"sync"
@@ -301,6 +302,18 @@ func checkHistory(h history) *rp.Fail {
 				observedAfterMutation = true
 			}
 			if f := recheck("after the delivered network buffers were overwritten"); f != nil {
+				return f
+			}
+		case "gc":
+			// garbage collections (finalizers run in between) and a burst of other decodes: what the caller holds stays what it was
+			runtime.GC()
+			time.Sleep(time.Millisecond)
+			runtime.GC()
+			checkReusedVariable(n)
+			if len(results) > 0 {
+				observedAfterMutation = true
+			}
+			if f := recheck("after garbage collections"); f != nil {
 				return f
 			}
 		case "mutate-returned":
@@ -650,7 +663,7 @@ func genHistory(t *rapid.T) history {
 	}
 	steps := rapid.IntRange(1, 30).Draw(t, "steps")
 	for i := 0; i < steps; i++ {
-		kind := rapid.SampledFrom([]string{"mutate-slice", "mutate-doors", "mutate-devicelist", "call", "call", "call", "call", "scribble", "scribble", "mutate-returned", "listen", "clone"}).Draw(t, "kind")
+		kind := rapid.SampledFrom([]string{"mutate-slice", "mutate-doors", "mutate-devicelist", "call", "call", "call", "call", "scribble", "scribble", "mutate-returned", "listen", "clone", "gc"}).Draw(t, "kind")
 		s := step{Kind: kind, I: rapid.IntRange(0, 50).Draw(t, "i"), J: rapid.IntRange(0, 50).Draw(t, "j")}
 		if kind == "call" || kind == "clone" {
 			op := gen.Op(t, true)
